@@ -446,3 +446,33 @@ def obs_C08(g, out):
 
 
 P.OBS["C08"] = obs_C08
+
+
+# ---------------------------------------------------------------------------------------------
+# C16: pairs of grids (mirror images, field reversals)
+C16_VARS = ["psixy", "hy", "Bpxy", "Btxy", "Bxy", "Brxy", "Bzxy", "J", "dx", "g11", "g22", "g33", "g23", "g_11", "g_22", "g_33", "g_23", "dphidy", "zShift"]
+
+
+def obs_C16_pair(gA, gB, kind, out):
+    qpos = 1e-8
+    out["kind"] = kind
+    out["B"] = {k: gB.header()[k] for k in ("topo", "nx", "ny", "G", "ints", "rects", "NX", "NY", "conn")}
+    pos = {}
+    for tag, g in (("A", gA), ("B", gB)):
+        pos[tag] = {"Rc": Q(g.var("Rxy"), qpos), "Zc": Q(g.var("Zxy"), qpos), "Rx": Q(g.var("Rxy_xlow"), qpos), "Zx": Q(g.var("Zxy_xlow"), qpos),
+                    "Rlo": Q(g.var("Rxy_ylow"), qpos), "Zlo": Q(g.var("Zxy_ylow"), qpos),
+                    "Rhi": Q(upper_face(g, "Rxy", "ylow"), qpos), "Zhi": Q(upper_face(g, "Zxy", "ylow"), qpos)}
+    out["pos"] = pos
+    sc = {}
+    for v in C16_VARS:
+        a, b = gA.var(v), gB.var(v)
+        if a is None or b is None:
+            continue
+        m = max(float(np.nanmax(np.abs(a))), float(np.nanmax(np.abs(b))), 1e-300)
+        q = 1e-7 * m
+        sc[v] = {"A": Q(a, q), "B": Q(b, q)}
+    out["sc"] = sc
+    out["scnames"] = sorted(sc)
+
+
+P.OBS_PAIR = {"C16": obs_C16_pair}
